@@ -256,8 +256,13 @@ fn random_A(rng: &mut Rng, m: usize, n: usize, density_pct: usize) -> Vec<Vec<f6
 }
 
 fn random_P(rng: &mut Rng, n: usize, kind: usize) -> Vec<Vec<f64>> {
-    // kind 0: zero; 1: diagonal; 2: G'G
+    // kind 0: zero; 1: diagonal; 2: G'G; 3: G'G + I (strictly convex)
     let mut P = vec![vec![0.0; n]; n];
+    if kind == 3 {
+        for i in 0..n {
+            P[i][i] = 1.0;
+        }
+    }
     match kind {
         0 => {}
         1 => {
@@ -270,7 +275,7 @@ fn random_P(rng: &mut Rng, n: usize, kind: usize) -> Vec<Vec<f64>> {
             let G: Vec<Vec<f64>> = (0..k).map(|_| (0..n).map(|_| rng.range(-2, 2) as f64).collect()).collect();
             for i in 0..n {
                 for j in 0..n {
-                    P[i][j] = (0..k).map(|l| G[l][i] * G[l][j]).sum();
+                    P[i][j] += (0..k).map(|l| G[l][i] * G[l][j]).sum::<f64>();
                 }
             }
         }
